@@ -1,4 +1,6 @@
 #!/bin/bash
+# evidence of runs on deliberately changed trees goes to a scratch directory, never to /verif/evidence
+export VERIF_EVIDENCE_DIR=/verif/out/selftest-evidence
 # usage: run_mutant.sh <prop> <file-relative-to-repo> <sed-expression>
 # Applies a one-line mutation to /repo, runs the property's quick check, restores the file.
 prop=$1; f=$2; expr=$3
